@@ -135,20 +135,26 @@ def selectVar (lt : Var → Var → Bool) (cons : List (Constraint Var Val)) (as
   | [] => none
   | c :: cs => some (cs.foldl (fun best x => if tupleLt lt x best then x else best) c).2.2
 
+/-- one round of the inner loop of `__solve`: `assignments[variable] = values.pop()`, `push_state` on the domains of the
+other unassigned variables, the checks, the deeper search when they pass, `pop_state` on the same domains -/
+def tryOne (rec : Store Var Val → Asg Var Val → List (Asg Var Val) × Store Var Val)
+    (cons : List (Constraint Var Val)) (var : Var) (asg : Asg Var Val) (v : Val) (st : Store Var Val) :
+    List (Asg Var Val) × Store Var Val :=
+  let asg' := (var, v) :: asg                                              -- assignments[variable] = values.pop()
+  let push := fun x => x != var && unassigned asg x                        -- push_domains
+  let r := checkAll asg' (vcons cons var) (upd push Dom.pushState st)
+  let deeper := if r.1 then rec r.2 asg' else ([], r.2)
+  (deeper.1, upd push Dom.popState deeper.2)
+
 /-- the loop over `values` of one frame: `values` is listed in the order the values are tried -/
 def tryValues (rec : Store Var Val → Asg Var Val → List (Asg Var Val) × Store Var Val)
     (cons : List (Constraint Var Val)) (var : Var) (asg : Asg Var Val) :
     List Val → Store Var Val → List (Asg Var Val) × Store Var Val
   | [], st => ([], st)
   | v :: vs, st =>
-    let asg' := (var, v) :: asg                                            -- assignments[variable] = values.pop()
-    let push := fun x => x != var && unassigned asg x                      -- push_domains
-    let st1 := upd push Dom.pushState st
-    let r := checkAll asg' (vcons cons var) st1
-    let deeper := if r.1 then rec r.2 asg' else ([], r.2)
-    let st4 := upd push Dom.popState deeper.2
-    let later := tryValues rec cons var asg vs st4
-    (deeper.1 ++ later.1, later.2)
+    let one := tryOne rec cons var asg v st
+    let later := tryValues rec cons var asg vs one.2
+    (one.1 ++ later.1, later.2)
 
 /-- `__solve` -/
 def solveRec (lt : Var → Var → Bool) (cons : List (Constraint Var Val)) :
